@@ -19,8 +19,8 @@ ASSUMPTIONS = [
     'awaitable completions and resume calls are delivered between two event-loop callbacks',
 ]
 BUDGET = {
-    'quick': {'enum': ['p3', 'w2', 'wfail'], 'hyp': 2000, 'shards': 8},
-    'thorough': {'enum': ['p3', 'p4', 'w2', 'w3', 'wfail'], 'hyp': 100000, 'shards': 16},
+    'quick': {'enum': ['p3', 'w2', 'wfail', 'pair3'], 'hyp': 2000, 'shards': 8},
+    'thorough': {'enum': ['p3', 'p4', 'w2', 'w3', 'wfail', 'pair3', 'pair4'], 'hyp': 100000, 'shards': 16},
 }
 ALPHABET = [['resume', 'v1'], ['resume', None], ['pause', 'pm'], ['play']]
 
@@ -38,6 +38,26 @@ def enumerate_cases(tier, scope):
         from . import wc_await
 
         yield from wc_await.enumerate_cases(int(scope[1]))
+    elif scope in ('pair3', 'pair4'):
+        # two (three) waiting processes on one loop: a wake-up belongs to the process it was sent to
+        import itertools
+
+        k = int(scope[4])
+        n = 2 if k == 3 else 3
+        alpha = [[w, i] for i in range(n) for w in ('pause', 'play')] + [['resume', i, f'v{i}'] for i in range(n)]
+        for kk in range(2, k + 1):
+            for seq in itertools.product(alpha, repeat=kk):
+                if not any(e[0] == 'resume' for e in seq) or not any(e[0] == 'pause' for e in seq):
+                    continue
+                if len({e[1] for e in seq}) < 2:
+                    continue
+                for gap in (0, 1):
+                    sched = []
+                    for e in seq:
+                        if gap:
+                            sched.append(['tick', gap])
+                        sched.append(list(e))
+                    yield {'kind': 'pair', 'n': n, 'schedule': sched}
     elif scope == 'wfail':
         from . import wc_await
 
@@ -52,6 +72,17 @@ def _cases(draw, tier):
         from . import wc_await
 
         return draw(wc_await.strategy(tier))
+    if draw(st.integers(0, 4)) == 0:
+        n = draw(st.integers(2, 4))
+        sched = []
+        for _ in range(draw(st.integers(2, 8))):
+            gap = draw(st.integers(0, 2))
+            if gap:
+                sched.append(['tick', gap])
+            i = draw(st.integers(0, n - 1))
+            what = draw(st.sampled_from(['pause', 'play', 'resume', 'resume']))
+            sched.append(['resume', i, draw(st.sampled_from([f'v{i}', None, 0, f'w{i}']))] if what == 'resume' else [what, i])
+        return {'kind': 'pair', 'n': n, 'schedule': sched}
     prog = draw(gen.programs(max_steps=5, self_calls=(), soon=False, endings=('value', 'unsuccessful'), waits=True))
     sched = draw(gen.control_schedules(['pause', 'play', 'resume', 'resume', 'open'], max_events=6, max_gap=3))
     return {'program': prog, 'schedule': sched}
@@ -61,11 +92,101 @@ def strategy(tier):
     return _cases(tier)
 
 
+PAIR_PROG = {'steps': [gen.S([], ['wait', 1, 'w', None]), gen.S([], ['wait', 2, 'w2', None]), gen.S([], ['value', 'end'])]}
+
+
+def _execute_pair(case):
+    """Several waiting processes of one class on one loop: every process continues exactly with the values that were
+    sent to *it*, in order, and a process nobody resumed keeps waiting."""
+    import asyncio
+
+    from .. import world
+    from ..programs import control, make_class
+    from ..steploop import StepLoop
+
+    viol = []
+
+    def v(clause, detail):
+        viol.append({'clause': clause, 'detail': detail})
+
+    n = case['n']
+    loop = StepLoop()
+    asyncio.set_event_loop(loop)
+    w = world.reset(loop)
+    cls = make_class(PAIR_PROG)
+    procs, tasks = [], []
+    try:
+        with loop.as_running():
+            for i in range(n):
+                proc = cls(pid=f'P{i}', loop=loop)
+                procs.append(proc)
+                task = loop.create_task(proc.step_until_terminated())
+                task._pv_owned = True
+                tasks.append(task)
+        loop.drain()
+        accepted = {i: [] for i in range(n)}  # values sent while the process was WAITING for its k-th wake-up, first one per wait
+        same_iteration = False
+        last_kind = {}
+        for ev in case['schedule']:
+            if ev[0] == 'tick':
+                for _ in range(ev[1]):
+                    loop.step_one()
+                last_kind = {}
+                continue
+            i = ev[1]
+            proc = procs[i]
+            if ev[0] == 'resume':
+                n_entered = sum(1 for e in w.trace.get(proc.pid, []) if e['k'] == 'enter')
+                if proc.state.value == 'waiting' and len(accepted[i]) < n_entered:
+                    accepted[i].append(ev[2])
+                if any(k == 'pause' for j, k in last_kind.items() if j != i) or last_kind.get(i) == 'pause':
+                    same_iteration = True
+            with loop.as_running():
+                control(proc, ev[0], ev[2] if len(ev) > 2 else None, who='ext')
+            last_kind[i] = ev[0]
+        loop.drain()
+        for _ in range(3):
+            with loop.as_running():
+                for proc in procs:
+                    if proc.paused:
+                        control(proc, 'play', None, who='settle')
+            loop.drain()
+        for i, proc in enumerate(procs):
+            got = [list(a) for _s, a, _k in w.steps(proc.pid)][1:]
+            want = [[val] for val in accepted[i]]
+            if got[: len(want)] != want or len(got) > len(want):
+                v('wakeup-crossed', f'process {i} continued with {got}, the values sent to it while it waited were {accepted[i]}')
+            elif proc.state.value == 'waiting' and len(accepted[i]) > len(got):
+                v('lost-wakeup', f'process {i} was resumed with {accepted[i]} but is still WAITING after play and quiescence')
+            exp_state = 'finished' if len(accepted[i]) >= 2 else 'waiting'
+            if not viol and proc.state.value != exp_state:
+                v('final-state', f'process {i}: {proc.state.value} expected {exp_state} after wake-ups {accepted[i]}')
+        for ctx in loop.escapes():
+            v('loop-exception', f"{ctx['message'][:60]} {ctx['exc_type']}: {ctx['exc_str']}")
+            break
+        history = {'schedule': case['schedule'], 'accepted': accepted, 'steps': {p.pid: w.steps(p.pid) for p in procs}, 'final': [p.state.value for p in procs]}
+    finally:
+        for task in tasks:
+            task.cancel()
+        loop.drain(500)
+        for task in loop.all_tasks:
+            task._log_destroy_pending = False
+        loop.shutdown()
+        asyncio.set_event_loop(None)
+        world.reset(None)
+    classes = ['pair', 'n=%d' % n]
+    if same_iteration:
+        classes.append('wakeup-races-request')
+    return {'violations': viol, 'nontrivial': same_iteration, 'classes': classes, 'history': history}
+
+
 def execute(case):
     if case.get('kind') == 'wc_await':
         from . import wc_await
 
         return wc_await.execute(case)
+    if case.get('kind') == 'pair':
+        return _execute_pair(case)
     viol = []
     classes = []
 
@@ -107,7 +228,7 @@ from .c04 import shrink_candidates as _shrink_prog  # noqa: E402
 
 
 def shrink_candidates(case):
-    if case.get('kind') == 'wc_await':
+    if case.get('kind') in ('wc_await', 'pair'):
         return iter(())
     return _shrink_prog(case)
 
